@@ -89,7 +89,7 @@ def _run(level, c, invs=(), **kw):
 def l1_configs(quick):
     if quick:
         return [(2, True, 4), (3, True, 4), (3, False, 3)]
-    return [(2, True, 5), (2, False, 4), (3, True, 5), (3, False, 4), (4, True, 4), (4, False, 3)]
+    return [(2, True, 6), (2, False, 4), (3, True, 6), (3, False, 4), (4, True, 4), (4, False, 3)]
 
 
 def l1_key(v):
@@ -124,17 +124,21 @@ def l1_binding_canary(G, h, prev, seed):
     edge = next(e for e in G.out[k0] if e[0] == "MpcAction")
     op, args, exp, k2 = edge
     b = B.MpcBench(h, prev, seed)
-    bad = copy.deepcopy(exp)
-    bad["ret"] = [exp["ret"][0], exp["ret"][1] + 1]
     try:
-        B.mpc_step(b, op, args, bad)
+        B.mpc_step(b, op, args, exp)
+    except graph.Mismatch:
+        return  # the code deviates on this very edge: reported by the main pass, nothing to learn from a corruption
+    want = copy.deepcopy(G.state[k2])
+    if graph.canon(B.mpc_project(b)) != graph.canon(want):
+        return
+    bad = copy.deepcopy(exp)
+    bad["ret"] = [exp["ret"][0] + 1, exp["ret"][1]]
+    try:
+        B.mpc_step(B.MpcBench(h, prev, seed), op, args, bad)
     except graph.Mismatch:
         pass
     else:
         raise tlc.MachineryError("binding canary: a corrupted returned-row expectation was not noticed by the level-1 replay")
-    want = copy.deepcopy(G.state[k2])
-    if B.mpc_project(b) != want:
-        return  # the unchanged tree already deviates here: reported by the main pass
     want["prevPlan"][-1] = [1, 1]
     if graph.canon(B.mpc_project(b)) == graph.canon(want):
         raise tlc.MachineryError("binding canary: a corrupted stored plan was not noticed by the level-1 projection")
@@ -235,7 +239,7 @@ def scenarios(quick, seed):
         dict(label="R real optimiser and model update", script=[(3, "term"), (2, "trunc")], total=8, ls=3, nspi=2, h=2, with_prev=True, cap=100, logger=True, stats=False, masks=[[]], real=True),
     ]
     rs = np.random.default_rng(seed * 7919 + 101)
-    for i in range(4 if quick else 24):
+    for i in range(4 if quick else 36):
         h = int(rs.integers(2, 5))
         script = [(int(rs.integers(1, 5)), str(rs.choice(["term", "trunc"]))) for _ in range(int(rs.integers(1, 5)))]
         masks = [sorted(int(x) for x in rs.choice(np.arange(1, h + 1), size=int(rs.integers(0, h + 1)), replace=False)) for _ in range(5)]
@@ -274,10 +278,13 @@ def l3_report(rep, traces, out):
 
 def l3_binding_canaries(traces, out):
     """Corrupt one recorded field / drop one event of an accepted trace: MpcTrace must name the clause."""
-    t = next((t for t in traces if not t.get("error") and not out[t["id"]]["viol"] and sum(e["ev"] == "train" for e in t["events"]) >= 2
-              and sum(e["ev"] == "plan" for e in t["events"]) >= 2 and t["cfg"]["logger"]), None)
+    def count(t, kind):
+        return sum(e["ev"] == kind for e in t["events"])
+
+    t = next((t for t in traces if not t.get("error") and not out[t["id"]]["viol"] and count(t, "train") >= 2 and count(t, "log_stop") >= 2 and t["cfg"]["logger"]
+              and any(e["ev"] == "plan" and e["ret"] != [0, 0] for e in t["events"])), None)
     if t is None:
-        return False  # no accepted trace: the main pass reports the deviations
+        return False  # no accepted trace of that shape: the main pass reports the deviations
     bads = []
 
     def variant(name, clause, fn):
@@ -286,14 +293,17 @@ def l3_binding_canaries(traces, out):
         fn(b["events"])
         bads.append((b, clause))
 
-    def second(evs, kind):
-        return [i for i, e in enumerate(evs) if e["ev"] == kind][1]
+    def nth(evs, kind, n=1, pred=lambda e: True):
+        idx = [i for i, e in enumerate(evs) if e["ev"] == kind and pred(e)]
+        return idx[min(n, len(idx) - 1)]
 
-    variant("epochs", "EpochsHandOver", lambda evs: evs[second(evs, "train")].update(epochs=evs[second(evs, "train")]["epochs"] + 4))
-    variant("noreset", "Missing_reset", lambda evs: evs.pop(second(evs, "reset")))
-    variant("shift", "ShiftByOne", lambda evs: evs[second(evs, "plan")].update(after=evs[second(evs, "plan")]["out"]))
-    variant("notrain", "TrainMissing", lambda evs: [evs.pop(i) for i in sorted([j for j, e in enumerate(evs) if e["ev"] in ("sample", "train") or (e["ev"] in ("log_stat", "log_epoch") and e.get("key") in ("dynamics model loss", "dynamics_model"))][:4], reverse=True)])
-    variant("stop", "StopReportsEpisodeLength", lambda evs: evs[second(evs, "log_stop")].update(n=evs[second(evs, "log_stop")]["n"] + 1))
+    fresh = lambda e: e["ret"] != [0, 0]  # the optimised plan starts with a fresh row: storing it unshifted is a real change
+    train_block = lambda e: e["ev"] in ("sample", "train") or (e["ev"] in ("log_stat", "log_epoch") and e.get("key") in ("dynamics model loss", "dynamics_model"))
+    variant("epochs", "EpochsHandOver", lambda evs: evs[nth(evs, "train")].update(epochs=evs[nth(evs, "train")]["epochs"] + 4))
+    variant("noreset", "Missing_reset", lambda evs: evs.pop(nth(evs, "reset")))
+    variant("shift", "ShiftByOne", lambda evs: evs[nth(evs, "plan", 0, fresh)].update(after=evs[nth(evs, "plan", 0, fresh)]["out"]))
+    variant("notrain", "TrainMissing", lambda evs: [evs.pop(i) for i in sorted([j for j, e in enumerate(evs) if train_block(e)][:4], reverse=True)])
+    variant("stop", "StopReportsEpisodeLength", lambda evs: evs[nth(evs, "log_stop")].update(n=evs[nth(evs, "log_stop")]["n"] + 1))
     res, _ = B.validate([b for b, _ in bads], tag="x01canary")
     for b, clause in bads:
         got = {c for _, c in res[b["id"]]["viol"]}
@@ -334,7 +344,8 @@ def run(rep):
           dict(H=2, LearningStarts=2, StepsPerIter=4, Total=8, MaxEpLen=4, Cap=100, InitWithPrev=False)]
     if not quick:
         l3 += [dict(H=4, LearningStarts=3, StepsPerIter=1, Total=7, MaxEpLen=4, Cap=5), dict(H=3, LearningStarts=0, StepsPerIter=4, Total=8, MaxEpLen=2, Cap=100),
-               dict(H=3, LearningStarts=9, StepsPerIter=2, Total=6, MaxEpLen=3, Cap=100)]
+               dict(H=3, LearningStarts=9, StepsPerIter=2, Total=6, MaxEpLen=3, Cap=100),
+               dict(H=3, LearningStarts=3, StepsPerIter=2, Total=8, MaxEpLen=4, Cap=6)]
     for c in l3:
         h = c["H"]
         masks = subsets(h) if h <= 3 else {frozenset(), frozenset(range(1, h + 1)), frozenset({2}), frozenset({1, h})}
@@ -351,6 +362,8 @@ def run(rep):
     # the code's key handling inside one planning call: every iteration gets the same sampling key (reported, not enforced)
     jobs["iteration keys (code)"] = ("keys", pool.submit(_run, "O", consts(NOptIters={2}), ["IterationKeysDistinct"], workers=1, tag="x01k"), False)
     jobs["iteration keys (threaded)"] = ("keys", pool.submit(_run, "O", consts(NOptIters={2}, ThreadIterKey=True), ["IterationKeysDistinct"], workers=1, tag="x01k"), True)
+
+    jobs["planner / training keys (code)"] = ("keys", pool.submit(_run, "L", consts(H=2, Total=4, LearningStarts=1, StepsPerIter=2, MaxEpLen=2), ["PlannerAndTrainingKeysDisjoint"], workers=1, tag="x01k"), False)
 
     B.L.load()
     marks = {"jax": round(time.time() - t0, 1)}
@@ -413,7 +426,7 @@ def run(rep):
                 raise tlc.MachineryError(f"{name}: the deviation was not refuted by {job[2]} (TLC: {r.violated})")
         elif kind == "keys":
             if bool(r.ok) != job[2]:
-                raise tlc.MachineryError(f"{name}: IterationKeysDistinct expected to {'hold' if job[2] else 'fail'}")
+                raise tlc.MachineryError(f"{name}: the key-separation invariant was expected to {'hold' if job[2] else 'fail'}")
     pool.shutdown()
     marks["tlc"] = round(time.time() - t0, 1)
 
@@ -432,7 +445,9 @@ def run(rep):
     rep.extra.update(level1_edges=edges, level2_planning_calls=plan_runs, level2_recorded_calls=n_calls, setup_vectors=n_cfg, level3_runs=len(traces),
                      level3_accepted=accepted, level3_steps=steps, level3_planner_calls=sum(out[t["id"]]["calls"] for t in traces),
                      level3_trainings=sum(out[t["id"]]["trainings"] for t in traces), canaries=len(QUICK_CANARIES if quick else CANARIES), marks=marks,
-                     observations=["TLC refutes IterationKeysDistinct for the code's key handling in _pets_optimize (same sampling key in every CEM iteration); modelled as IterKeyReusedEveryIteration, not enforced"])
+                     observations=["TLC refutes IterationKeysDistinct for the code's key handling in _pets_optimize (same sampling key in every CEM iteration); modelled as IterKeyReusedEveryIteration, not enforced",
+                                   "TLC refutes PlannerAndTrainingKeysDisjoint for train_pets (training and planner key chains start from the same jax.random.key(seed)); modelled as SameRootForTrainingAndPlanning, not enforced",
+                                   "the training batch is a with-replacement resample of the buffer (BatchIsResampleOfBuffer): membership is checked, not equality"])
     rep.assumptions += [
         "the abstract optimiser either passes a row through or returns a fresh one (the two extremes of an update of the mean)",
         "jax.random.split is injective on the explored part of the split tree (key paths are compared through key data)",
